@@ -1,0 +1,17 @@
+//go:build verif
+
+package compact
+
+import "diagonal.works/b6"
+
+// VerifNumIndices returns the number of search indices merged into the world, one per merged file
+// that carries a search index block, in merge order.
+func (w *World) VerifNumIndices() int {
+	return len(w.indices)
+}
+
+// VerifFindFeaturesInIndex returns the cursor FindFeatures builds for the i-th merged search index
+// alone: the per-index stream that FindFeatures hands to b6.MergeFeatures.
+func (w *World) VerifFindFeaturesInIndex(i int, q b6.Query) b6.Features {
+	return b6.NewSearchFeatureIterator(q.Compile(w.indices[i], w), w.indices[i])
+}
